@@ -467,7 +467,7 @@ type rangeWitness struct {
 	Honest   string `json:",omitempty"`
 	Claim    string
 	Proof    string
-	Dropped  string `json:",omitempty"`
+	Discrepancy string `json:",omitempty"`
 	WantTrue bool
 	WantMore bool
 	GotMore  bool
@@ -482,10 +482,117 @@ func feltsOf(ks []*big.Int) []*felt.Felt {
 	return out
 }
 
+// rootKind: what sits at depth 0 of the trie (the legacy package keys its nodes by
+// path, and the root of a trie whose leaves differ in the top bit has the empty path).
+func rootKind(c trieCase) string {
+	switch {
+	case len(c.Items) == 0:
+		return "empty-trie"
+	case len(c.Items) == 1:
+		return "single-leaf-trie"
+	case c.Items[0].K.Bit(height-1) != c.Items[len(c.Items)-1].K.Bit(height-1):
+		return "binary-root"
+	}
+	return "edge-root"
+}
+
+// discrepancy names what is false about a claim, from the leaf set alone.
+func discrepancy(items []lib.KV, rc rangeClaim) string {
+	if len(rc.Keys) != len(rc.Vals) {
+		return "malformed"
+	}
+	truth := map[string]string{}
+	for _, it := range items {
+		truth[it.K.String()] = it.V.String()
+	}
+	claimed := map[string]string{}
+	wrongVal, absentKey := 0, 0
+	for i, k := range rc.Keys {
+		v := "nil"
+		if rc.Vals[i] != nil {
+			v = rc.Vals[i].String()
+		}
+		claimed[k.String()] = v
+		if tv, ok := truth[k.String()]; !ok {
+			absentKey++
+		} else if tv != v {
+			wrongVal++
+		}
+	}
+	var missing []*big.Int
+	if rc.NilProof {
+		for _, it := range items {
+			if _, ok := claimed[it.K.String()]; !ok {
+				missing = append(missing, it.K)
+			}
+		}
+	} else {
+		last := rc.First
+		if len(rc.Keys) > 0 {
+			last = rc.Keys[len(rc.Keys)-1]
+		}
+		for _, it := range items {
+			if _, ok := claimed[it.K.String()]; ok {
+				continue
+			}
+			if it.K.Cmp(rc.First) >= 0 && (it.K.Cmp(last) <= 0 || len(rc.Keys) == 0) {
+				missing = append(missing, it.K)
+			}
+		}
+	}
+	sib := func(a, b *big.Int) bool { return new(big.Int).Xor(a, b).Cmp(big.NewInt(1)) == 0 }
+	switch {
+	case wrongVal+absentKey == 0 && len(missing) == 1 && len(rc.Keys) > 0:
+		m := missing[0]
+		fk, lk := rc.Keys[0], rc.Keys[len(rc.Keys)-1]
+		switch {
+		case m.Cmp(rc.First) == 0 && isLeaf(items, new(big.Int).SetBit(new(big.Int).Set(m), 0, m.Bit(0)^1)):
+			return "omitted-first-key-that-has-a-last-bit-sibling-leaf"
+		case m.Cmp(rc.First) == 0:
+			return "omitted-first-key-without-sibling-leaf"
+		case fk.Cmp(rc.First) == 0 && fk.Bit(0) == 0 && sib(m, fk):
+			return "omitted-boundary-sibling"
+		case lk.Bit(0) == 1 && sib(m, lk):
+			return "omitted-boundary-sibling"
+		case m.Cmp(fk) < 0:
+			return "omitted-element-before-first-claimed"
+		}
+		return "omitted-inner-element"
+	case wrongVal+absentKey == 0 && len(missing) > 0 && len(rc.Keys) == 0:
+		return "claims-nothing-at-or-after-first-but-leaves-exist"
+	case wrongVal+absentKey == 0 && len(missing) > 1:
+		return "omitted-several-elements"
+	case len(missing) == 0 && wrongVal == 1 && absentKey == 0:
+		return "wrong-value"
+	case len(missing) == 0 && wrongVal == 0 && absentKey == 1:
+		return "absent-key-claimed"
+	case len(missing) == 1 && wrongVal == 0 && absentKey == 1:
+		return "key-moved-to-absent-neighbour"
+	}
+	return fmt.Sprintf("mixed(missing=%d,wrong-values=%d,absent-keys=%d)", len(missing), wrongVal, absentKey)
+}
+
 const legacyGapClass = "legacy-range-proof-accepts-omitted-boundary-sibling"
 
 // checkRanges: honest ranges must verify with the right hasMore; every tampered
 // claim that the verifier accepts must be a true claim with the right hasMore.
+// cond names the structural condition of a witness that decides which code path of
+// the verifiers it takes: a trie whose root is a binary node (root key of length 0 in
+// core/trie), a single-leaf trie, else whether the claim's first key is a leaf.
+func cond(c trieCase, rc rangeClaim) string {
+	switch rk := rootKind(c); rk {
+	case "binary-root", "single-leaf-trie", "empty-trie":
+		return rk
+	}
+	if rc.NilProof {
+		return "no-proof"
+	}
+	if isLeaf(c.Items, rc.First) {
+		return "first-present"
+	}
+	return "first-absent"
+}
+
 func checkRanges(rp *reporter, idx int, c trieCase, im *impl, rng *rand.Rand) {
 	r := rp.r
 	h := c.hashFn()
@@ -519,6 +626,16 @@ func checkRanges(rp *reporter, idx int, c trieCase, im *impl, rng *rand.Rand) {
 			}
 			return w
 		}
+		// report builds the witness only while the class still wants written-out witnesses
+		report := func(class, op string, t rangeClaim, more bool, e error, isTrue, wMore bool, disc string, brief func() string) {
+			if !rp.want(class) {
+				rp.count(class)
+				return
+			}
+			w := mk(op, t, more, e)
+			w.WantTrue, w.WantMore, w.Discrepancy = isTrue, wMore, disc
+			rp.viol(class, idx, brief(), w)
+		}
 		var more bool
 		var e error
 		if rp.guard(idx, im.name+":VerifyRangeProof:honest:"+rc.Shape, func() any { return mk("", rc, false, nil) }, func() { more, e = call(rc) }) {
@@ -527,22 +644,22 @@ func checkRanges(rp *reporter, idx int, c trieCase, im *impl, rng *rand.Rand) {
 		r.Eval(1)
 		r.Count("range.honest_claims", 1)
 		r.Count("range.honest_shape["+rc.Shape+"]", 1)
-		honestOK := true
 		if e != nil {
-			w := mk("", rc, more, e)
-			w.WantTrue, w.WantMore = true, wantMore
-			rp.viol(fmt.Sprintf("%s:range-honest-rejected:%s", im.name, rc.Shape), idx,
-				fmt.Sprintf("%s VerifyRangeProof rejects the honest range %s (%s): %v", im.name, rc.Shape, rc.String(), e), w)
-			honestOK = false
+			report(fmt.Sprintf("%s:range-honest-rejected:%s:%s", im.name, rc.Shape, cond(c, rc)), "", rc, more, e, true, wantMore, "", func() string {
+				return fmt.Sprintf("%s VerifyRangeProof rejects the honest range '%s' (%s): %v", im.name, rc.Shape, rc.String(), e)
+			})
 		} else if more != wantMore {
-			w := mk("", rc, more, e)
-			w.WantTrue, w.WantMore = true, wantMore
-			rp.viol(fmt.Sprintf("%s:range-honest-wrong-hasMore:%s:got-%v", im.name, rc.Shape, more), idx,
-				fmt.Sprintf("%s VerifyRangeProof returns hasMore=%v for the honest range %s (%s); leaves to the right exist: %v", im.name, more, rc.Shape, rc.String(), wantMore), w)
-			honestOK = false
+			report(fmt.Sprintf("%s:range-true-claim-wrong-hasMore:got-%v:%s", im.name, more, cond(c, rc)), "", rc, more, e, true, wantMore, "", func() string {
+				return fmt.Sprintf("%s VerifyRangeProof returns hasMore=%v for the honest range '%s' (%s); leaves to the right exist: %v", im.name, more, rc.Shape, rc.String(), wantMore)
+			})
 		}
-		_ = honestOK
-		for _, t := range rangeTampers(rng, c, rc, h) {
+		tampers := rangeTampers(rng, c, rc, h)
+		if idx < 8 && e == nil && rc.Shape == "middle" && len(rc.Keys) <= 4 && r.Counter("samples.range") < 1 {
+			r.Count("samples.range", 1)
+			r.Sample(map[string]any{"kind": "range", "case": idx, "impl": im.name, "leaves": len(c.Items), "honest_claim": rc.String(),
+				"hasMore": more, "proof_nodes": len(rc.P), "tampered_claims_derived": len(tampers)})
+		}
+		for _, t := range tampers {
 			tTrue, tMore := rangeTruth(c.Items, t.C)
 			var more bool
 			var e error
@@ -561,28 +678,24 @@ func checkRanges(rp *reporter, idx int, c trieCase, im *impl, rng *rand.Rand) {
 				r.Count("range.tampers_accepted_but_truthful", 1)
 				continue
 			}
-			w := mk(t.Op, t.C, more, e)
-			w.WantTrue, w.WantMore = tTrue, tMore
-			if t.Dropped != nil {
-				w.Dropped = t.Dropped.Text(16)
-			}
+			cd := cond(c, t.C)
 			if tTrue {
-				rp.viol(fmt.Sprintf("%s:range-accepted-with-wrong-hasMore:%s", im.name, fam), idx,
-					fmt.Sprintf("%s VerifyRangeProof accepts (%s) %s with hasMore=%v, but leaves to the right exist: %v", im.name, t.Op, t.C.String(), more, tMore), w)
+				report(fmt.Sprintf("%s:range-true-claim-wrong-hasMore:got-%v:%s", im.name, more, cd), t.Op, t.C, more, e, true, tMore, "", func() string {
+					return fmt.Sprintf("%s VerifyRangeProof accepts the (still true) claim %s [%s] with hasMore=%v; leaves to the right exist: %v", im.name, t.C.String(), t.Op, more, tMore)
+				})
 				continue
 			}
-			class := fmt.Sprintf("%s:range-accepted-lie:%s", im.name, t.Op)
-			if im.name == "legacy" && t.Dropped != nil && len(t.C.Keys) > 0 {
-				// the gap the TODO above trie.VerifyRangeProof describes: the omitted element is
-				// the last-bit sibling of the first or of the last key of the claim
-				fk, lk := t.C.First, t.C.Keys[len(t.C.Keys)-1]
-				sib := func(a, b *big.Int) bool { return new(big.Int).Xor(a, b).Cmp(big.NewInt(1)) == 0 }
-				if (sib(t.Dropped, fk) && fk.Bit(0) == 0 && t.C.Keys[0].Cmp(fk) == 0) || (sib(t.Dropped, lk) && lk.Bit(0) == 1) {
-					class = legacyGapClass
-				}
+			disc := discrepancy(c.Items, t.C)
+			class := fmt.Sprintf("%s:range-accepted-lie:%s:%s", im.name, disc, cd)
+			if im.name == "legacy" && disc == "omitted-boundary-sibling" {
+				// the gap the TODO above trie.VerifyRangeProof describes: the only thing wrong with the
+				// claim is that the last-bit sibling of its first (left-sibling) or last (right-sibling) key is left out
+				class = legacyGapClass
 			}
-			rp.viol(class, idx,
-				fmt.Sprintf("%s VerifyRangeProof accepts a false range claim (%s on honest %s): %s", im.name, t.Op, rc.Shape, t.C.String()), w)
+			report(class, t.Op, t.C, more, e, false, tMore, disc, func() string {
+				return fmt.Sprintf("%s VerifyRangeProof accepts a false range claim (%s; %s; produced by %s on the honest range '%s'): %s",
+					im.name, disc, cd, t.Op, rc.Shape, t.C.String())
+			})
 		}
 	}
 }
